@@ -67,11 +67,13 @@ def main(tier):
     ev = vf.Evidence(PROP, tier)
     fnd = vf.Findings()
     bins = st_common.build_replay()
-    cfg = "MC_SimplexTree_filt3.cfg" if tier == "quick" else "MC_SimplexTree_filt3_t.cfg"
+    # quick: values {0, 1} and +infinity (assign_filtration may give +infinity), thorough: {0, 1, 2} and +infinity
+    cfg = "MC_SimplexTree_filt3_qi.cfg" if tier == "quick" else "MC_SimplexTree_filt3_t.cfg"
     unknown = []
     r, g, summ, devs, crashes = st_common.run_model(ev, "filt_v3", cfg, bins, 3, 2,
                                                     gap_edges_per_state=6 if tier == "quick" else None,
-                                                    max_edges_per_state=None if tier == "quick" else 12)
+                                                    max_edges_per_state=None if tier == "quick" else 12,
+                                                    extra_env={"VF_LIVE_CACHE": "1"})
     if r.violation:
         p = vf.save_replay(PROP, "model", {"tlc": r.violation})
         vf.violation(PROP, p)
